@@ -379,3 +379,199 @@ func topCensus() map[string]int {
 	}
 	return out
 }
+
+// ---------------------------------------------------------------------------------------------------------------------
+// the peer's answer arrives exactly when the server gives the request up
+
+// responseRace: k = st-json | sse | stdio. Tools wait for roots/list with deadlines swept over 1–60 ms while the peer
+// answers every request with a result of 1–4 MB (decoding and re-encoding it takes the server milliseconds: the window in
+// which the waiter has gone while the answer is being handed over), after a varied delay. The server must not panic (a
+// panic on the goroutine that handles the response kills the process), every call must be answered, the next request served.
+func (r *runner) responseRace(k string) {
+	sc, err := newScenarioServer(k, func(register func(string, toolHandler), self *scenarioServer) {
+		register("roots-deadline", func(ctx context.Context, req *mcp.CallToolRequest) (*mcp.CallToolResult, error) {
+			ms, _ := req.Params.Arguments["ms"].(float64)
+			c2, cancel := context.WithTimeout(ctx, time.Duration(ms*float64(time.Millisecond)))
+			defer cancel()
+			res, err := self.rl.ListRoots(c2)
+			if err != nil {
+				return mcp.NewTextResult("roots-error: " + err.Error()), nil
+			}
+			return mcp.NewTextResult(fmt.Sprintf("roots:%d", len(res.Roots))), nil
+		})
+	})
+	if err != nil {
+		r.fail("response-race-"+k, err)
+		return
+	}
+	defer sc.closeAll()
+	// results of about 1, 2 and 4 MB
+	var payloads []string
+	for _, n := range []int{8000, 16000, 32000} {
+		var b strings.Builder
+		b.WriteString(`{"roots":[`)
+		for i := 0; i < n; i++ {
+			if i > 0 {
+				b.WriteByte(',')
+			}
+			fmt.Fprintf(&b, `{"uri":"file:///verif/some/fairly/long/path/to/a/root/directory/number/%06d","name":"root number %06d of a large workspace"}`, i, i)
+		}
+		b.WriteString(`]}`)
+		payloads = append(payloads, b.String())
+	}
+	type job struct {
+		ms   float64
+		size int
+	}
+	// calibration: how long one exchange takes for each size when the tool is patient (the deadlines are then swept
+	// around that time, where an answer can meet a waiter that is just leaving)
+	roundTrip := func(size int) time.Duration {
+		t0 := time.Now()
+		id := fmt.Sprintf(`"calib-%d"`, size)
+		sc.p.send(fmt.Sprintf(`{"jsonrpc":"2.0","id":%s,"method":"tools/call","params":{"name":"roots-deadline","arguments":{"ms":3000}}}`, id))
+		deadline := time.After(stepCeiling)
+		for {
+			as, rs := sc.p.poll()
+			for _, rq := range rs {
+				if rq[1] == "roots/list" {
+					sc.p.send(`{"jsonrpc":"2.0","id":` + rq[0] + `,"result":` + payloads[size] + `}`)
+				}
+			}
+			if _, ok := as[id]; ok {
+				return time.Since(t0)
+			}
+			select {
+			case <-sc.p.wake():
+			case <-deadline:
+				return stepCeiling
+			}
+		}
+	}
+	points := 16
+	if r.thorough {
+		points = 60
+	}
+	var jobs []job
+	var calib []string
+	for sz := range payloads {
+		rt := roundTrip(sz)
+		calib = append(calib, rt.Round(time.Millisecond).String())
+		if rt >= stepCeiling {
+			continue
+		}
+		T := float64(rt) / float64(time.Millisecond)
+		for i := 0; i < points; i++ {
+			jobs = append(jobs, job{0.2*T + 1.1*T*float64(i)/float64(points), sz})
+		}
+	}
+	if len(jobs) == 0 {
+		r.s.Count("response-race:not-calibrated:"+k, false, map[string]any{"round_trips": calib}, "response-race")
+		return
+	}
+	kind := kindOf(k)
+	scenario := fmt.Sprintf("%d tools/call of a tool that waits for roots/list with deadlines swept from 0.2 to 1.3 times the measured round trip (%s for 1 / 2 / 4 MB); the peer answers every roots/list request with a result of that size after 0-6 ms", len(jobs), strings.Join(calib, ", "))
+	r.s.About("the answer arrives when the request is given up", map[string]any{"server": k, "scenario": scenario})
+	in := map[string]any{"server": k, "scenario": scenario}
+	answers := map[string]string{}
+	answered, seen := 0, 0
+	const batch = 6
+	for b0 := 0; b0 < len(jobs); b0 += batch {
+		var ids []string
+		for i := b0; i < b0+batch && i < len(jobs); i++ {
+			id := fmt.Sprintf(`"race-%d"`, i)
+			ids = append(ids, id)
+			sc.p.send(fmt.Sprintf(`{"jsonrpc":"2.0","id":%s,"method":"tools/call","params":{"name":"roots-deadline","arguments":{"ms":%g}}}`, id, jobs[i].ms))
+		}
+		deadline := time.After(stepCeiling)
+	wait:
+		for {
+			as, rs := sc.p.poll()
+			for id, a := range as {
+				answers[id] = a
+			}
+			for _, rq := range rs {
+				if rq[1] != "roots/list" {
+					continue
+				}
+				j := jobs[(b0+seen%batch)%len(jobs)]
+				if b0+batch <= len(jobs) {
+					j = jobs[b0] // (a batch holds one size)
+				}
+				seen++
+				go func(id string, size, delay int) {
+					time.Sleep(time.Duration(delay) * time.Millisecond) // the varied delay of the peer's answer (load shaping)
+					sc.p.send(`{"jsonrpc":"2.0","id":` + id + `,"result":` + payloads[size] + `}`)
+				}(rq[0], j.size, (seen%4)*2)
+			}
+			missing := false
+			for _, id := range ids {
+				if _, ok := answers[id]; !ok {
+					missing = true
+				}
+			}
+			if !missing {
+				break
+			}
+			select {
+			case <-sc.p.wake():
+			case <-deadline:
+				break wait
+			}
+		}
+		for _, id := range ids {
+			if _, ok := answers[id]; ok {
+				answered++
+			}
+		}
+		if answered < b0+len(ids) {
+			break // something is stuck: the remaining batches would only wait for the same ceiling
+		}
+	}
+	ok := true
+	if pl := sc.plog.take(); strings.Contains(pl, "panic") {
+		ok = false
+		r.s.Violate(hk.Violation{Fingerprint: "rpc:" + kind + ":panic-on-response", What: "panic text on the server's ErrorLog while answers arrived around the moment their requests were given up: " + clipS(pl, 600), Input: in})
+	}
+	got, late := 0, 0
+	for _, a := range answers {
+		if strings.Contains(a, "roots:") {
+			got++
+		} else if strings.Contains(a, "roots-error") {
+			late++
+		}
+	}
+	if answered < len(jobs) {
+		ok = false
+		r.s.Violate(hk.Violation{Fingerprint: "rpc:" + kind + ":response-race:calls-unanswered",
+			What:  fmt.Sprintf("a tool call that waited for roots/list with a deadline got no answer within %v (%d of %d calls had been answered)", stepCeiling, answered, len(jobs)),
+			Input: in, Observed: map[string]any{"calls_that_received_roots": got, "calls_that_gave_up": late}, Expected: "every call is answered: with the roots, or with the deadline's error"})
+	} else {
+		sc.p.send(`{"jsonrpc":"2.0","id":"after-race","method":"ping"}`)
+		pinged := false
+		pd := time.After(inflightPingCeiling)
+		for !pinged {
+			as, _ := sc.p.poll()
+			if _, g := as[`"after-race"`]; g {
+				pinged = true
+				break
+			}
+			select {
+			case <-sc.p.wake():
+				continue
+			case <-pd:
+			}
+			break
+		}
+		if !pinged {
+			ok = false
+			r.s.Violate(hk.Violation{Fingerprint: "rpc:" + kind + ":not-alive-after-response-race", What: "after answers that arrived around the moment their requests were given up, a ping on the same connection was not answered within " + inflightPingCeiling.String(), Input: in})
+		} else if why := sc.handshake(); why != "" {
+			ok = false
+			r.s.Violate(hk.Violation{Fingerprint: "rpc:" + kind + ":unresponsive-after-response-race", What: "after answers that arrived around the moment their requests were given up a fresh client is not served: " + why, Input: in})
+		}
+	}
+	r.s.Count("response-race:"+k, ok, map[string]any{"server": k, "scenario": scenario, "calls_that_received_roots": got, "calls_that_gave_up": late}, "response-race")
+	if os.Getenv("VERIF_RPC_TIMING") != "" {
+		fmt.Fprintf(os.Stderr, "response race %s: %d got roots, %d gave up\n", k, got, late)
+	}
+}
